@@ -12,9 +12,11 @@ Qed.
 
 Lemma mem_false x l : mem x l = false <-> ~ In x l.
 Proof.
-  rewrite <- mem_In. destruct (mem x l); split; intro H; try reflexivity; try discriminate.
-  - intro; discriminate.
+  rewrite <- mem_In. destruct (mem x l); split; intro H.
+  - discriminate.
   - exfalso. apply H. reflexivity.
+  - discriminate.
+  - reflexivity.
 Qed.
 
 Lemma nodup_b_NoDup l : nodup_b l = true <-> NoDup l.
@@ -101,7 +103,7 @@ Qed.
 
 Lemma del_ids_nil l : del_ids [] l = l.
 Proof.
-  unfold del_ids. induction l as [|x l IH]; cbn [filter mem existsb negb]; [reflexivity|].
+  unfold del_ids. induction l as [|x l IH]; cbn [filter]; [reflexivity|].
   rewrite IH. reflexivity.
 Qed.
 
@@ -166,14 +168,14 @@ Lemma find_upd_w a w l :
 Proof.
   unfold upd_w. induction l as [|x l IH]; cbn [map find_w]; [reflexivity|].
   destruct (w_op x =? w_op w) eqn:E1.
-  - apply N.eqb_eq in E1. rewrite <- E1.
-    destruct (w_op w =? a) eqn:E2.
-    + apply N.eqb_eq in E2. rewrite <- E1 in E2. rewrite (proj2 (N.eqb_eq _ _) E2).
-      subst a. rewrite N.eqb_refl. reflexivity.
-    + assert (E3 : w_op x =? a = false) by (rewrite E1; exact E2).
-      rewrite E3. exact IH.
+  - apply N.eqb_eq in E1. destruct (w_op w =? a) eqn:E2.
+    + apply N.eqb_eq in E2.
+      assert (H : w_op x =? a = true) by (apply N.eqb_eq; congruence). rewrite H.
+      assert (H0 : a =? w_op w = true) by (apply N.eqb_eq; congruence). rewrite H0. reflexivity.
+    + assert (H : w_op x =? a = false) by (rewrite E1; exact E2). rewrite H. exact IH.
   - destruct (w_op x =? a) eqn:E2.
-    + apply N.eqb_eq in E2. subst a. rewrite E1. reflexivity.
+    + apply N.eqb_eq in E2.
+      assert (H : a =? w_op w = false) by (rewrite <- E2; exact E1). rewrite H. reflexivity.
     + exact IH.
 Qed.
 
@@ -245,7 +247,7 @@ Lemma WM_same s s' : same_but_app s s' -> WM s -> WM s'.
 Proof.
   unfold same_but_app, WM, prog_le. intros H [H1 [H2 H3]].
   repeat match goal with H : _ /\ _ |- _ => destruct H end.
-  repeat split; try congruence.
+  split; [congruence|]. split; [congruence|].
   intro n. replace (s_progress s') with (s_progress s) by congruence.
   replace (s_leo s') with (s_leo s) by congruence. apply H3.
 Qed.
